@@ -1,12 +1,13 @@
-(* SrcTie.v — the closed-form leaves of the geodesy models equal the terms regenerated from the C++ source.
-   gen/SrcFuns.v is produced on every run by translate/srcfuns.py from the clang AST of /repo; the lemmas below are
+(* SrcTie.v — tactics and literal lemmas shared by the source-tie files SrcTieC01.v, SrcTieC02.v, SrcTieC03.v,
+   SrcTieAngles.v (one per property, so that a function the translator can no longer handle breaks the tie of its own
+   property only).  The closed-form leaves of the models equal the terms regenerated from the C++ source:
+   gen/SrcFuns<id>.v is produced on every run by translate/srcfuns.py from the clang AST of /repo; the lemmas below are
    proved for the real-number instance (the one the theorems are about).  Literals differ in representation only
    (the source's `1`, `2`, `1.0`, `1.5` become nofZ / nofDec, the model writes n_one, ntwo, the constant table), so the
    proofs are by computation plus the value of the decimal literals.  If the C++ expression is edited, the generated
    term changes and these lemmas must be re-proved: they fail when the meaning over the reals changes. *)
 From Coq Require Import Reals ZArith Lra.
-From Romea Require Import Num NumR GeodesyModel LambertModel.
-From Romea.gen Require Import RepoConstants SrcFuns.
+From Romea Require Import Num NumR.
 Local Open Scope R_scope.
 
 (* [dict] exposes the real operations behind the dictionary projections; [req] closes an equation between two real terms
@@ -35,55 +36,11 @@ Ltac req := unfold Rdiv; unify_apps; req_n 12%nat.
 Lemma dec_1_0 : IZR 1 * powerRZ 10 0 = 1.
 Proof. simpl. lra. Qed.
 
-Lemma dec_15_m1 : IZR 15 * powerRZ 10 (-1) = IZR meridional_radius_exponent_m * powerRZ 10 meridional_radius_exponent_e.
-Proof. reflexivity. Qed.
-
 Lemma izr2 : IZR 2 = 1 + 1.
 Proof. replace (IZR 2) with 2 by reflexivity. lra. Qed.
 Lemma dec_2_0 : IZR 2 * powerRZ 10 0 = 1 + 1.
 Proof. simpl. lra. Qed.
 Ltac lits := rewrite ?dec_2_0, ?dec_1_0, ?izr2.
 
-Lemma tie_isometricLatitude lat e : src_isometricLatitude ROps lat e = isometricLatitude ROps lat e.
-Proof. unfold src_isometricLatitude, isometricLatitude. dict. lits. req. Qed.
-
-Lemma tie_grandeNormale lat a e : src_grandeNormale ROps lat a e = grandeNormale ROps lat a e.
-Proof. unfold src_grandeNormale, grandeNormale, pow2. dict. lits. req. Qed.
-
-Lemma tie_meridionalRadius lat (el : ellipsoid (T:=R)) :
-  src_meridionalRadius ROps lat (el_a el) (el_e el) (el_e2 el) = meridionalRadius ROps el lat.
-Proof. unfold src_meridionalRadius, meridionalRadius, pow2. dict. rewrite dec_15_m1. lits. req. Qed.
-
-Lemma tie_transversalRadius lat (el : ellipsoid (T:=R)) :
-  src_transversalRadius ROps lat (el_a el) (el_e el) = transversalRadius ROps el lat.
-Proof. unfold src_transversalRadius, transversalRadius, pow2. dict. lits. req. Qed.
-
-Lemma tie_toECEF (el : ellipsoid (T:=R)) (g : geodetic (T:=R)) :
-  src_toECEF ROps (el_a el) (el_e2 el) (g_alt g) (g_lat g) (g_lon g)
-  = (vx (toECEF ROps el g), vy (toECEF ROps el g), vz (toECEF ROps el g)).
-Proof.
-  unfold src_toECEF, toECEF, primeVertical. cbv zeta. cbn [vx vy vz]. dict. lits. req.
-Qed.
-
-Lemma tie_toLambert (pr : projection (T:=R)) e (w : wgs84 (T:=R)) :
-  src_toLambert ROps (p_c pr) e (p_lon0 pr) (p_n pr) (w_lat w) (w_lon w) (p_xs pr) (p_ys pr)
-  = (v2x (toLambert ROps pr e w), v2y (toLambert ROps pr e w)).
-Proof.
-  unfold src_toLambert, toLambert. cbv zeta. rewrite tie_isometricLatitude. cbn [v2x v2y]. dict. req.
-Qed.
-
-(* ENUConverter::setAnchor: the 3x3 block written column by column equals the model's frame (rows of the generated tuple
-   are rows of the matrix).  The only representational difference is the literal 0.0 in the east column. *)
-From Romea Require Import EnuModel.
-
 Lemma dec_0_0 : IZR 0 * powerRZ 10 0 = 0.
 Proof. simpl. lra. Qed.
-
-Lemma tie_enuFrame lat lon :
-  src_enuFrame ROps lat lon =
-  (let m := frame_rotation ROps lat lon in
-   (m00 m, m01 m, m02 m, m10 m, m11 m, m12 m, m20 m, m21 m, m22 m)).
-Proof.
-  unfold src_enuFrame, frame_rotation. cbv zeta. cbn [m00 m01 m02 m10 m11 m12 m20 m21 m22]. dict.
-  rewrite dec_0_0. req.
-Qed.
